@@ -46,7 +46,7 @@ def judge(case, impl, model):
     kwcall = s['keywordCall'] or setter
     # positional calls (dunder methods, *args functions, positional-only parameters): a value of the positional prefix that binds to
     # a declared parameter without default (theorem positional_prefix_guard); Python itself must accept the call (twin)
-    posbad = bool(s.get('positionalPrefixBad')) and C.twin_accepts(impl)
+    posbad = (bool(s.get('positionalPrefixBad')) or bool(s.get('badStarSpec'))) and C.twin_accepts(impl)     # … or an element of *args (Python's binding)
     if claimed and ((s['anyNonConforming'] or setter and s.get('positionalBad')) and kwcall or posbad):
         if impl['ran']:
             pfail = f'the body ran although a supplied value does not conform - {C.describe_case(case)}'
